@@ -30,15 +30,18 @@ def admissible (P : Prog) : Cfg → List Ev → Bool
   | _, [] => true
   | c, e :: es => evAllowed c e && admissible P (step P c e).1 es
 
-/-- the reference history: pause/play dropped, ticks of a stepper suspended on a pause future dropped -/
+/-- what one event of the history with pauses becomes in the reference history: pause/play are dropped, and so is a tick
+that finds the stepping task suspended on a pause future -/
+def evImage (c : Cfg) : Ev → List Ev
+  | .pause => []
+  | .play => []
+  | .tick => if isAwaitPaused c.pc then [] else [.tick]
+  | e => [e]
+
+/-- the reference history of a history with pauses, started in `c` -/
 def unpaused (P : Prog) : Cfg → List Ev → List Ev
   | _, [] => []
-  | c, e :: es =>
-    let rest := unpaused P (step P c e).1 es
-    match e with
-    | .pause | .play => rest
-    | .tick => if isAwaitPaused c.pc then rest else .tick :: rest
-    | e => e :: rest
+  | c, e :: es => evImage c e ++ unpaused P (step P c e).1 es
 
 /-! ### "the synchronous chain of steps run by one tick ends within the fuel" -/
 
@@ -1755,5 +1758,94 @@ theorem tickCb_adone_inStep (c d : Cfg) (f : Nat) (h : InStep c d) :
     obtain ⟨g1, g2, g3, g4, g5, g6, g7, g8, g9, g10, g11, g12, g13, g14, g15⟩ := sh_fields h.core.sh
     rw [sh_eq_iff]; simp [*]
   · exact h
+
+/-! ### whole histories -/
+
+theorem run_append (P : Prog) (c : Cfg) (xs ys : List Ev) : run P c (xs ++ ys) = run P (run P c xs) ys := by
+  simp [run, List.foldl_append]
+
+theorem fuelOk_append (P : Prog) : ∀ (xs ys : List Ev) (c : Cfg),
+    fuelOk P c (xs ++ ys) = (fuelOk P c xs && fuelOk P (run P c xs) ys) := by
+  intro xs
+  induction xs with
+  | nil => intro ys c; simp [fuelOk, run]
+  | cons x rest ih =>
+    intro ys c
+    simp only [List.cons_append, fuelOk, ih, Bool.and_assoc]
+    rfl
+
+theorem sim_init (P : Prog) (nf : Nat) : Sim P (init nf) (init nf) := by
+  refine Or.inl ⟨⟨rfl, Or.inl ⟨rfl, by intro a b c d h; cases h⟩, rfl, rfl, rfl⟩, IntOk.of_none rfl, rfl, ?_, fun _ => ⟨rfl, rfl⟩⟩
+  intro h; cases h
+
+theorem SL.sim {P : Prog} {c d : Cfg} (h : SL P c d) : Sim P c d := by
+  rcases h with h | h
+  · exact Or.inl h
+  · exact Or.inr (Or.inr h)
+
+theorem quiet_inStep {P : Prog} {c d : Cfg} (h : Sim P c d) (hq : quiet c = true) : InStep c d := by
+  simp only [quiet, Bool.and_eq_true, Bool.not_eq_true'] at hq
+  rcases h with h | h | h
+  · exact h
+  · have := h.intSome
+    cases hi : c.interrupt with
+    | none => exact absurd hi this
+    | some i => rw [hi] at hq; simp at hq
+  · rw [h.1] at hq; simp at hq
+
+/-- one event of the history with pauses and its image in the reference history -/
+theorem step_sim (P : Prog) (c d : Cfg) (e : Ev) (h : Sim P c d) (hinv : InvP c) (hI : Inv c)
+    (ha : evAllowed c e = true) (hf : fuelOk P d (evImage c e) = true) :
+    Sim P (step P c e).1 (run P d (evImage c e)) := by
+  cases e with
+  | pause => exact pause_sim P c d h
+  | play => exact play_sim P c d h
+  | tick =>
+    rcases h with h | h | h
+    · have hnp : isAwaitPaused c.pc = false := by
+        cases hpc : c.pc with
+        | awaitPaused pf => have := h.pc; rw [hpc] at this; exact absurd this (by simp [PcRelAt])
+        | _ => rfl
+      simp only [evImage, hnp, Bool.false_eq_true, if_false, fuelOk, Bool.and_true] at hf ⊢
+      exact (tick_inStep P c d h hinv hf).sim
+    · obtain ⟨fn, wf, aw, wf', k, hst, hst', hw, hw', hpc, hpd⟩ := h.wait
+      have hnp : isAwaitPaused c.pc = false := by rw [hpc]; rfl
+      simp only [evImage, hnp, Bool.false_eq_true, if_false]
+      obtain ⟨h1, h2⟩ := tick_qw P c d h hinv hI
+      show Sim P (tickStepper P c) (tickStepper P d)
+      rw [h2]; exact h1.sim
+    · simp only [evImage, h.1, if_true]
+      exact (tick_lag P c d h hinv hI).sim
+  | resume v =>
+    have hq := quiet_inStep h ha
+    exact Or.inl (resume_inStep c d v hq)
+  | complete f o =>
+    have hq := quiet_inStep h ha
+    exact Or.inl (complete_inStep c d f o hq)
+  | tickCb cb =>
+    cases cb with
+    | adone f =>
+      have hq := quiet_inStep h ha
+      exact Or.inl (tickCb_adone_inStep c d f hq)
+    | trykill => simp [evAllowed] at ha
+    | usercb r => simp [evAllowed] at ha
+  | kill => simp [evAllowed] at ha
+  | fail e => simp [evAllowed] at ha
+  | cancelFut => simp [evAllowed] at ha
+  | callSoon r => simp [evAllowed] at ha
+
+/-- **simulation over whole histories** -/
+theorem run_sim (P : Prog) : ∀ (evs : List Ev) (c d : Cfg), Sim P c d → InvP c → Inv c → admissible P c evs = true →
+    fuelOk P d (unpaused P c evs) = true → Sim P (run P c evs) (run P d (unpaused P c evs)) := by
+  intro evs
+  induction evs with
+  | nil => intro c d h _ _ _ _; exact h
+  | cons e es ih =>
+    intro c d h hinv hI ha hf
+    simp only [admissible, Bool.and_eq_true] at ha
+    simp only [unpaused, fuelOk_append, Bool.and_eq_true] at hf
+    rw [show run P c (e :: es) = run P (step P c e).1 es from rfl]
+    simp only [unpaused, run_append]
+    exact ih _ _ (step_sim P c d e h hinv hI ha.1 hf.1) (step_invP P c e hinv) (step_inv P c e hI) ha.2 hf.2
 
 end PMF
